@@ -10,9 +10,10 @@ duplicate-free entry list): point lookups, previous values returned by `insert`/
 the full scan, `min`/`max`, and `range` for all nine bound shapes (= the key-sorted filter of the
 scan). Removed keys appear nowhere.
 
-Deviation (witnesses below): `BTreeIndex::range` panics on an inverted / empty-exclusive range, but
-only once the map has ever held an entry; `OrderedFloat::cmp` answers `Equal` whenever a NaN is
-involved, so a NaN key aliases the first key of the root node.
+Two deviations found here were repaired upstream (fix-1: `BTreeIndex::range` answers inverted /
+empty-exclusive bounds with `[]` instead of panicking once a root node exists; fix-2: `OrderedFloat`
+is a total order, NaN = NaN > every number). The model is the repaired code; the former behaviour
+is kept as `Old.*` with the former witnesses as `…_old_…` regression theorems.
 -/
 namespace Grafeo.Idx
 
@@ -113,7 +114,7 @@ theorem c14_bt_min (ops : List (Op Int V)) : bMin (bRun icmp ops) = sMin (sRun o
 theorem c14_bt_max (ops : List (Op Int V)) : bMax (bRun icmp ops) = sMax (sRun ops) := by
   unfold bMax sMax; rw [c14_bt_entries]
 
-/-- when does `range` panic (i64 keys): start above end, or both ends excluded and equal -/
+/-- inverted bounds (i64 keys): start above end, or both ends excluded and start ≥ end -/
 def inverted : Bound Int → Bound Int → Prop
   | .exc s, .exc e => e ≤ s
   | .inc s, .inc e => e < s
@@ -121,39 +122,29 @@ def inverted : Bound Int → Bound Int → Prop
   | .exc s, .inc e => e < s
   | _, _ => False
 
-theorem rangePanics_iff (lo hi : Bound Int) : rangePanics icmp ieq lo hi = true ↔ inverted lo hi := by
-  cases lo <;> cases hi <;> simp [rangePanics, inverted, ieq, icmp_gt] <;> omega
+theorem rangeEmpty_iff (lo hi : Bound Int) : rangeEmpty icmp lo hi = true ↔ inverted lo hi := by
+  cases lo <;> cases hi <;> simp [rangeEmpty, inverted, icmp_gt, icmp_lt] <;> omega
 
-/-- **range = sorted filtered scan**, for every history and all nine bound shapes. The call
-panics exactly when a root node exists and the bounds are inverted; otherwise (including inverted
-bounds on a never-populated or cleared index) it returns the scan's answer. -/
-theorem c14_bt_range (ops : List (Op Int V)) (lo hi : Bound Int) :
-    bRange icmp ieq (bRun icmp ops) lo hi =
-      if (bRun icmp ops).root && rangePanics icmp ieq lo hi then none
-      else some (sRange (sRun ops) lo hi) := by
-  have h := BRef.run ops
-  unfold bRange
-  cases hr : (bRun icmp ops).root
-  · have he := h.root hr
-    have : sRun ops = [] := by
-      have hp := h.ref.perm; rw [he] at hp; exact List.Perm.nil_eq hp |>.symm
-    simp [this, sRange, sortByKey]
-  · simp only [Bool.not_true, Bool.false_eq_true, if_false, Bool.true_and]
-    split
-    · rfl
-    · congr 1
-      rw [range_eq_filter h.sorted]
-      exact (h.sorted.filter _).eq_sort (h.ref.perm.filter _)
-
-/-- in every case where `range` panics, the scan's answer is the empty list -/
-theorem c14_bt_range_panic_scan_empty (a : List (Int × V)) (lo hi : Bound Int)
-    (h : rangePanics icmp ieq lo hi = true) : sRange a lo hi = [] := by
-  rw [rangePanics_iff] at h
+/-- for inverted bounds the scan's answer is the empty list -/
+theorem c14_bt_range_inverted_scan_empty (a : List (Int × V)) (lo hi : Bound Int)
+    (h : rangeEmpty icmp lo hi = true) : sRange a lo hi = [] := by
+  rw [rangeEmpty_iff] at h
   have : a.filter (fun e => inLo lo e.1 && inHi hi e.1) = [] := by
     rw [List.filter_eq_nil_iff]
     intro e _
     cases lo <;> cases hi <;> simp [inverted, inLo, inHi] at h ⊢ <;> omega
   simp [sRange, this, sortByKey]
+
+/-- **range = sorted filtered scan**, for every history and all nine bound shapes, inverted and
+empty-exclusive bounds included (they select nothing) -/
+theorem c14_bt_range (ops : List (Op Int V)) (lo hi : Bound Int) :
+    bRange icmp (bRun icmp ops) lo hi = sRange (sRun ops) lo hi := by
+  have h := BRef.run ops
+  unfold bRange
+  split
+  · rename_i he; exact (c14_bt_range_inverted_scan_empty _ lo hi he).symm
+  · rw [range_eq_filter h.sorted]
+    exact (h.sorted.filter _).eq_sort (h.ref.perm.filter _)
 
 /-- the scan specification is what it says: exactly the entries within the bounds, ascending -/
 theorem spec_range_mem (a : List (Int × V)) (lo hi : Bound Int) (e : Int × V) :
@@ -206,39 +197,50 @@ theorem c14_bt_removed_gone (ops : List (Op Int V)) (k : Int) :
   rw [bFind_eq_sGet (c14_bt_sorted _)]
   exact sGet_none_of_not_mem hall
 
-/-! ### deviation 1: `range` panics on inverted bounds — but only when a root node exists -/
+/-! ### regression: before fix-1 `range` panicked on inverted bounds — but only when a root node existed -/
 
-/-- populated index, `range(5..=3)`: panic; the scan says `[]` -/
-theorem c14_bt_range_inverted_panics_witness :
-    bRange icmp ieq (bRun icmp [Op.ins 1 10]) (.inc 5) (.inc 3) = none ∧
+/-- old behaviour, populated index, `range(5..=3)`: panic; the scan says `[]` -/
+theorem c14_bt_range_inverted_panics_old_witness :
+    Old.bRange icmp ieq (bRun icmp [Op.ins 1 10]) (.inc 5) (.inc 3) = none ∧
     sRange (sRun [Op.ins (1 : Int) (10 : Nat)]) (.inc 5) (.inc 3) = [] := by decide
 
-/-- `range((Excluded(3), Excluded(3)))` on a populated index: panic -/
-theorem c14_bt_range_excl_equal_panics_witness :
-    bRange icmp ieq (bRun icmp [Op.ins 1 10]) (.exc 3) (.exc 3) = none := by decide
+/-- old behaviour, `range((Excluded(3), Excluded(3)))` on a populated index: panic -/
+theorem c14_bt_range_excl_equal_panics_old_witness :
+    Old.bRange icmp ieq (bRun icmp [Op.ins 1 10]) (.exc 3) (.exc 3) = none := by decide
 
-/-- the same call answers `[]` on a never-populated or cleared index, and panics again on an index
-emptied by `remove` -/
-theorem c14_bt_range_inverted_inconsistent_witness :
-    bRange icmp ieq (bRun icmp ([] : List (Op Int Nat))) (.inc 5) (.inc 3) = some [] ∧
-    bRange icmp ieq (bRun icmp [Op.ins 1 10, Op.clear]) (.inc 5) (.inc 3) = some [] ∧
-    bRange icmp ieq (bRun icmp [Op.ins 1 10, Op.rem 1]) (.inc 5) (.inc 3) = none := by decide
+/-- old behaviour: the same call answered `[]` on a never-populated or cleared index, and panicked
+again on an index emptied by `remove` -/
+theorem c14_bt_range_inverted_inconsistent_old_witness :
+    Old.bRange icmp ieq (bRun icmp ([] : List (Op Int Nat))) (.inc 5) (.inc 3) = some [] ∧
+    Old.bRange icmp ieq (bRun icmp [Op.ins 1 10, Op.clear]) (.inc 5) (.inc 3) = some [] ∧
+    Old.bRange icmp ieq (bRun icmp [Op.ins 1 10, Op.rem 1]) (.inc 5) (.inc 3) = none := by decide
 
-/-- what holds: without inverted bounds `range` never panics and equals the scan -/
-theorem c14_bt_range_partial (ops : List (Op Int V)) (lo hi : Bound Int)
-    (h : rangePanics icmp ieq lo hi = false) :
-    bRange icmp ieq (bRun icmp ops) lo hi = some (sRange (sRun ops) lo hi) := by
-  rw [c14_bt_range, h]; simp
+/-- repaired: on those inputs `range` answers `[]` like the scan -/
+theorem c14_bt_range_inverted_repaired_nonvacuity :
+    bRange icmp (bRun icmp [Op.ins 1 10]) (.inc 5) (.inc 3) = ([] : List (Int × Nat)) ∧
+    bRange icmp (bRun icmp [Op.ins 1 10]) (.exc 3) (.exc 3) = ([] : List (Int × Nat)) ∧
+    bRange icmp (bRun icmp [Op.ins 1 10, Op.rem 1]) (.inc 5) (.inc 3) = ([] : List (Int × Nat)) ∧
+    bRange icmp (bRun icmp [Op.ins 1 10]) (.inc 1) (.inc 1) = [(1, 10)] := by decide
+
+/-- where old and repaired `range` agree: without inverted bounds the old code did not panic and
+returned what the repaired code returns -/
+theorem c14_bt_range_old_agrees (t : BT Int V) (lo hi : Bound Int) (hr : t.root = true)
+    (h : Old.rangePanics icmp ieq lo hi = false) :
+    Old.bRange icmp ieq t lo hi = some (bRange icmp t lo hi) := by
+  have he : rangeEmpty icmp lo hi = false := by
+    cases lo <;> cases hi <;>
+      simp [Old.rangePanics, rangeEmpty, ieq, icmp_gt, icmp_lt] at h ⊢ <;> omega
+  simp [Old.bRange, bRange, hr, h, he]
 
 /-- nonvacuity: a history with overwrite, removal of an absent and a present key; all nine shapes -/
 theorem c14_bt_nonvacuity :
     let ops : List (Op Int Nat) := [.ins 5 1, .ins 3 2, .ins 9 3, .ins 5 4, .rem 7, .rem 9, .ins (-2) 6]
     (bRun icmp ops).ents = [(-2, 6), (3, 2), (5, 4)] ∧
-    bRange icmp ieq (bRun icmp ops) (.inc 3) (.exc 5) = some [(3, 2)] ∧
-    bRange icmp ieq (bRun icmp ops) (.exc 3) (.inc 5) = some [(5, 4)] ∧
-    bRange icmp ieq (bRun icmp ops) .unb (.exc 3) = some [(-2, 6)] ∧
-    bRange icmp ieq (bRun icmp ops) (.exc (-2)) .unb = some [(3, 2), (5, 4)] ∧
-    bRange icmp ieq (bRun icmp ops) (.inc 4) (.inc 4) = some [] ∧
+    bRange icmp (bRun icmp ops) (.inc 3) (.exc 5) = [(3, 2)] ∧
+    bRange icmp (bRun icmp ops) (.exc 3) (.inc 5) = [(5, 4)] ∧
+    bRange icmp (bRun icmp ops) .unb (.exc 3) = [(-2, 6)] ∧
+    bRange icmp (bRun icmp ops) (.exc (-2)) .unb = [(3, 2), (5, 4)] ∧
+    bRange icmp (bRun icmp ops) (.inc 4) (.inc 4) = [] ∧
     sRange (sRun ops) (.inc 3) (.exc 5) = [(3, 2)] := by decide
 
 end BTree
@@ -250,64 +252,66 @@ def f2 : Nat := 0x4000000000000000   -- 2.0
 def fNaN : Nat := 0x7ff8000000000000
 def fNegZero : Nat := 0x8000000000000000
 
-/-- deviation 2: inserting the key NaN into {1.0 ↦ 10, 2.0 ↦ 20} reports "previous value 10" and
-overwrites the entry of 1.0; NaN itself is not stored; `get(NaN)` answers with 1.0's value -/
-theorem c14_btf_nan_aliases_witness :
-    (bInsert fcmp (bRun fcmp [Op.ins f1 10, Op.ins f2 20]) fNaN 99).2 = some 10 ∧
-    (bRun fcmp [Op.ins f1 10, Op.ins f2 20, Op.ins fNaN 99]).ents = [(f1, 99), (f2, 20)] ∧
-    bGet fcmp (bRun fcmp [Op.ins f1 10, Op.ins f2 20]) fNaN = some 10 := by decide +kernel
+/-- regression (before fix-2): inserting the key NaN into {1.0 ↦ 10, 2.0 ↦ 20} reported "previous
+value 10" and overwrote the entry of 1.0; NaN itself was not stored; `get(NaN)` answered with 1.0's value -/
+theorem c14_btf_nan_aliases_old_witness :
+    (bInsert Old.fcmp (bRun Old.fcmp [Op.ins f1 10, Op.ins f2 20]) fNaN 99).2 = some 10 ∧
+    (bRun Old.fcmp [Op.ins f1 10, Op.ins f2 20, Op.ins fNaN 99]).ents = [(f1, 99), (f2, 20)] ∧
+    bGet Old.fcmp (bRun Old.fcmp [Op.ins f1 10, Op.ins f2 20]) fNaN = some 10 := by decide +kernel
 
-/-- … and a NaN stored first swallows every later key: the index never grows beyond one entry,
-`get(2.0)` finds the value inserted under 1.0, `remove(2.0)` removes the NaN entry -/
-theorem c14_btf_nan_swallows_witness :
-    (bRun fcmp [Op.ins fNaN 1, Op.ins f1 10, Op.ins f2 20]).ents = [(fNaN, 20)] ∧
-    bGet fcmp (bRun fcmp [Op.ins fNaN 1, Op.ins f1 10]) f2 = some 10 ∧
-    (bRun fcmp [Op.ins fNaN 1, Op.rem f2]).ents = ([] : List (Nat × Nat)) := by decide +kernel
+/-- regression (before fix-2): a NaN stored first swallowed every later key -/
+theorem c14_btf_nan_swallows_old_witness :
+    (bRun Old.fcmp [Op.ins fNaN 1, Op.ins f1 10, Op.ins f2 20]).ents = [(fNaN, 20)] ∧
+    bGet Old.fcmp (bRun Old.fcmp [Op.ins fNaN 1, Op.ins f1 10]) f2 = some 10 ∧
+    (bRun Old.fcmp [Op.ins fNaN 1, Op.rem f2]).ents = ([] : List (Nat × Nat)) := by decide +kernel
 
-/-- −0 and +0 are one key (no deviation: `f64 ==` agrees) -/
+/-- repaired: NaN is an ordinary (greatest) key on the same inputs -/
+theorem c14_btf_nan_repaired_nonvacuity :
+    (bInsert fcmp (bRun fcmp [Op.ins f1 10, Op.ins f2 20]) fNaN 99).2 = none ∧
+    (bRun fcmp [Op.ins f1 10, Op.ins f2 20, Op.ins fNaN 99]).ents = [(f1, 10), (f2, 20), (fNaN, 99)] ∧
+    bGet fcmp (bRun fcmp [Op.ins f1 10, Op.ins f2 20]) fNaN = none ∧
+    (bRun fcmp [Op.ins fNaN 1, Op.ins f1 10, Op.ins f2 20]).ents = [(f1, 10), (f2, 20), (fNaN, 1)] ∧
+    (bRun fcmp [Op.ins fNaN 1, Op.rem f2]).ents = [(fNaN, 1)] := by decide +kernel
+
+/-- −0 and +0 are one key (`f64 ==` agrees) -/
 theorem c14_btf_zero_one_key :
     (bRun fcmp [Op.ins 0 1, Op.ins fNegZero 2]).ents = [(0, 2)] := by decide +kernel
 
-/-! ### what holds for `OrderedFloat`: NaN-free histories behave like the `i64` index on `F64.key`
-(the integer whose order is the IEEE order, −0 and +0 both 0), hence like the plain map -/
-section FloatPartial
+/-! ### `OrderedFloat` keys, every history (NaN included): the float index is the `i64` index on
+`fkeyI` (the integer whose order is the repaired order: IEEE for numbers, −0 = +0, NaN = NaN
+greatest), hence the plain map -/
+section Float
 variable {V : Type}
 
-theorem c14_btf_get_nan_free_partial (ops : List (Op Nat V)) (ho : ∀ o ∈ ops, o.nf) (k : Nat)
-    (hk : F64.isNaN k = false) :
-    bGet fcmp (bRun fcmp ops) k = sGet (sRun (ops.map (Op.mapKey F64.key))) (F64.key k) := by
-  have h := FSim.run ops ho
+theorem c14_btf_get (ops : List (Op Nat V)) (k : Nat) :
+    bGet fcmp (bRun fcmp ops) k = sGet (sRun (ops.map (Op.mapKey fkeyI))) (fkeyI k) := by
+  have h := FSim.run ops
   unfold bGet
-  rw [bFind_sim h.nf hk, h.ents]
+  rw [bFind_sim, h.ents]
   exact c14_bt_get _ _
 
-theorem c14_btf_len_nan_free_partial (ops : List (Op Nat V)) (ho : ∀ o ∈ ops, o.nf) :
-    bLen (bRun fcmp ops) = sLen (sRun (ops.map (Op.mapKey F64.key))) := by
-  have h := FSim.run ops ho
+theorem c14_btf_len (ops : List (Op Nat V)) :
+    bLen (bRun fcmp ops) = sLen (sRun (ops.map (Op.mapKey fkeyI))) := by
+  have h := FSim.run ops
   rw [← c14_bt_len]
   unfold bLen; rw [← h.ents]; simp [fmapK]
 
-theorem c14_btf_entries_nan_free_partial (ops : List (Op Nat V)) (ho : ∀ o ∈ ops, o.nf) :
-    fmapK (bRun fcmp ops).ents = sortByKey (sRun (ops.map (Op.mapKey F64.key))) := by
-  rw [(FSim.run ops ho).ents]; exact c14_bt_entries _
+theorem c14_btf_entries (ops : List (Op Nat V)) :
+    fmapK (bRun fcmp ops).ents = sortByKey (sRun (ops.map (Op.mapKey fkeyI))) := by
+  rw [(FSim.run ops).ents]; exact c14_bt_entries _
 
-theorem c14_btf_range_nan_free_partial (ops : List (Op Nat V)) (ho : ∀ o ∈ ops, o.nf)
-    (lo hi : Bound Nat) (hl : lo.nf) (hh : hi.nf) :
-    (bRange fcmp fkeq (bRun fcmp ops) lo hi).map fmapK =
-      if (bRun fcmp ops).root && rangePanics fcmp fkeq lo hi then none
-      else some (sRange (sRun (ops.map (Op.mapKey F64.key))) (lo.mapKey F64.key) (hi.mapKey F64.key)) := by
-  have h := FSim.run ops ho
-  rw [h.root, rangePanics_sim hl hh, ← c14_bt_range]
+theorem c14_btf_range (ops : List (Op Nat V)) (lo hi : Bound Nat) :
+    fmapK (bRange fcmp (bRun fcmp ops) lo hi) =
+      sRange (sRun (ops.map (Op.mapKey fkeyI))) (lo.mapKey fkeyI) (hi.mapKey fkeyI) := by
+  have h := FSim.run ops
+  rw [← c14_bt_range]
   unfold bRange
-  rw [h.root, rangePanics_sim hl hh]
+  rw [rangeEmpty_sim]
   split
   · rfl
-  · split
-    · rfl
-    · simp only [Option.map_some]
-      rw [rangeHi_sim (rangeLo_sim h.nf hl).2 hh, (rangeLo_sim h.nf hl).1, h.ents]
+  · rw [rangeHi_sim, rangeLo_sim, h.ents]
 
-end FloatPartial
+end Float
 
 /-! ## TrieIndex, TrieIterator (proofs in Proofs/IdxTrie.lean) -/
 
